@@ -5,6 +5,7 @@ from __future__ import annotations
 import itertools
 import math
 import random
+import re
 from fractions import Fraction
 
 from harness.core import carr, cbool, clist, copt, cq, cres, cstr, cz, errcode, np_arg, to_float, frac_str
@@ -445,6 +446,16 @@ class WellsSuite:
             if valid != (obs["idx"] is not None):
                 bad.append(f"indices: membership of {w!r} in indices is {obs['idx'] is not None}")
             if not valid:
+                # id <-> position is a bijection on the labware's wells: an id that is not a well has no position
+                # (only ids that denote a cell OUTSIDE the grid are judged: a lenient spelling of an existing well, like
+                # 'A1' for 'A01', is not a statement about the numbering)
+                m = re.fullmatch(r"([A-Z])(\d+)", w) if w.isascii() else None
+                outside = m is not None and (ord(m.group(1)) - 65 >= R or not (1 <= int(m.group(2)) <= C))
+                col_outside = m is not None and not (1 <= int(m.group(2)) <= C)
+                for dev in ("evo", "fluent"):
+                    # the Fluent numbering of a trough is 1 + column index "whatever virtual row is named"
+                    if (col_outside if (dev == "fluent" and tr) else outside) and not obs[dev].get("err"):
+                        bad.append(f"helper: {dev} get_well_position returned {obs[dev]['val']} for {w!r}, which lies outside the {R}x{C} grid")
                 for name, o in obs["ops"].items():
                     if o["raised"] is None:
                         bad.append(f"unknown-id: {name} with unknown id {w!r} did not raise")
@@ -778,7 +789,8 @@ def decode_selection(s):
             return None
         bits += [(v >> k) & 1 for k in range(7)]
     n = rows * cols
-    if len(bits) < n or any(bits[n:]):
+    # exactly ceil(n / 7) payload characters: EVOware reads a fixed-length string for the geometry named in the header
+    if len(s) - 4 != -(-n // 7) or len(bits) < n or any(bits[n:]):
         return None
     sel = [[bits[c * rows + r] for c in range(cols)] for r in range(rows)]
     return rows, cols, sel, len(s)
@@ -929,7 +941,8 @@ class XformSuite:
     rule = (
         "rotator: all shapes up to 8x12 (quick) / 16x24 (thorough), all wells, 1-D and 2-D and scalar arguments; shifter: all "
         "shape_A <= shape_B <= 4x6 (quick) / 6x8 (thorough) with every anchor incl. rejected ones; randomizer: shapes x seeds x "
-        "3 modes, lookup table read from the object, 0-d/1-D/2-D inputs; non-trivial = accepted call on at least two wells"
+        "3 modes, lookup table read from the object, 0-d/1-D/2-D inputs; construction of the table from the recorded RNG draws on 13 "
+        "(16) shapes incl. raising ones; non-trivial = accepted call on at least two wells"
     )
 
     def gen(self, tier, seed):
@@ -950,6 +963,15 @@ class XformSuite:
                     for d in ("cw", "ccw"):
                         cases.append({"k": d, "R": R, "C": C, "wells": allw, "fortran": True})
                 cases.append({"k": "ccw", "R": R, "C": C, "wells": {"shape": "list", "v": [wid(R, 0)]}})
+        if tier == "quick":
+            # the standard large formats and shapes beyond 8 x 12 (the portrait plate of a rotation has as many rows as columns)
+            for R, C in [(16, 24), (8, 24), (1, 24), (2, 17), (16, 1), (3, 20), (12, 18), (16, 13)]:
+                allw = {"shape": "2d", "v": [[wid(r, c) for c in range(C)] for r in range(R)]}
+                for d in ("cw", "ccw"):
+                    cases.append({"k": d, "R": R, "C": C, "wells": allw})
+                    cases.append({"k": d, "R": R, "C": C, "wells": {"shape": "list", "v": [wid(R - 1, C - 1), wid(0, C - 1), wid(R - 1, 0)]}})
+            cases.append({"k": "shift", "A": [8, 12], "B": [16, 24], "anchor": "I13", "wells": {"shape": "list", "v": ["A01", "H12", "D07"]}})
+            cases.append({"k": "unshift", "A": [8, 12], "B": [16, 24], "anchor": "I13", "wells": {"shape": "list", "v": ["I13", "P24"]}})
         RB, CB = (4, 6) if tier == "quick" else (6, 8)
         for rb in range(1, RB + 1):
             for cb in range(1, CB + 1):
@@ -997,6 +1019,14 @@ class XformSuite:
                         cases.append({"k": k, "R": R, "C": C, "seed": sd, "mode": mode,
                                       "wells": {"shape": "list", "v": [wid(rng.randrange(R), rng.randrange(C)) for _ in range(4)]}})
                         cases.append({"k": k, "R": R, "C": C, "seed": sd, "mode": mode, "wells": {"shape": "scalar", "v": wid(R - 1, 0)}})
+        # construction of the lookup table from the arrays numpy's generator returned (recorded by the runner)
+        shapes = [(1, 1), (2, 3), (3, 2), (4, 6), (8, 12), (3, 1), (1, 5), (26, 2), (27, 2), (30, 1), (2, 100), (0, 3), (3, 0)]
+        if tier == "thorough":
+            shapes += [(16, 24), (8, 24), (26, 12)]
+        for R, C in shapes:
+            for sd in range(nseeds):
+                for mode in ("full", "row", "column"):
+                    cases.append({"k": "randctor", "R": R, "C": C, "seed": sd * 7 + 1, "mode": mode})
         return cases
 
     def run(self, case):
@@ -1005,6 +1035,27 @@ class XformSuite:
 
         k = case["k"]
         out = {}
+        if k == "randctor":
+            from unittest import mock
+
+            calls = []
+
+            class Recording(numpy.random.RandomState):
+                def permutation(self, x):
+                    res = super().permutation(x)
+                    calls.append(([str(v) for v in numpy.asarray(x).flatten().tolist()], [str(v) for v in numpy.asarray(res).flatten().tolist()]))
+                    return res
+
+            try:
+                with mock.patch.object(transform.numpy.random, "RandomState", Recording):
+                    rnd = transform.WellRandomizer((case["R"], case["C"]), case["seed"], mode=case["mode"])
+                rnd2 = transform.WellRandomizer((case["R"], case["C"]), case["seed"], mode=case["mode"])
+                return {"err": None, "requests": [c[0] for c in calls], "draws": [c[1] for c in calls],
+                        "lookup": [[str(a), str(b)] for a, b in rnd.lookup.items()],
+                        "reverse_ok": {str(b): str(a) for a, b in rnd.lookup.items()} == {str(a): str(b) for a, b in rnd.lookup_reverse.items()},
+                        "same_seed_same_lookup": [[str(a), str(b)] for a, b in rnd2.lookup.items()] == [[str(a), str(b)] for a, b in rnd.lookup.items()]}
+            except Exception as e:
+                return {"err": errcode(e), "exc": type(e).__name__, "draws": [c[1] for c in calls]}
         arg = np_arg(case["wells"])
         if case.get("fortran"):
             arg = numpy.asfortranarray(arg)  # same values and shape, column-major memory layout
@@ -1038,6 +1089,11 @@ class XformSuite:
 
     def emit(self, case, obs):
         k = case["k"]
+        if k == "randctor":
+            mode = {"full": 0, "row": 1, "column": 2}[case["mode"]]
+            draws = clist([clist([cstr(w) for w in d]) for d in obs.get("draws", [])])
+            out = "(Err %s)" % obs["err"] if obs.get("err") else "(Ok %s)" % clist([f"({cstr(a)}, {cstr(b)})" for a, b in obs["lookup"]])
+            return f"(KRandCtor {mode} {case['R']} {case['C']} {draws} {out})"
         a = carr(case["wells"], cstr)
         if k == "cw":
             call = f"(XCw {case['R']} {case['C']} {a})"
@@ -1054,13 +1110,36 @@ class XformSuite:
         return f"(KXf {call} (Ok {out}))"
 
     def nontrivial(self, case, obs):
+        if case["k"] == "randctor":
+            return not obs.get("err") and len(obs["lookup"]) >= 2
         return not obs.get("err") and len(obs["val"]) >= 2
 
     def kind(self, case, obs):
+        if case["k"] == "randctor":
+            return "randctor:" + case["mode"] + ":" + (obs.get("exc") or "ok")
         return case["k"] + ":" + (obs.get("exc") or case["wells"]["shape"])
 
     def oracle_C15(self, case, obs):
         k = case["k"]
+        if k == "randctor":
+            R, C = case["R"], case["C"]
+            if obs.get("err"):
+                # shapes the plate helpers cannot represent (more rows than letters in row mode, no rows) may be refused
+                return [] if (R > 26 or R == 0 or C == 0) else [f"accept: WellRandomizer(({R}, {C}), mode={case['mode']!r}) raised {obs['exc']}"]
+            bad = []
+            lk = dict(obs["lookup"])
+            allw = {wid(r, c) for r in range(min(R, 26)) for c in range(C)}
+            if set(lk) != allw or set(lk.values()) != allw or len(obs["lookup"]) != len(allw):
+                bad.append("permutation: lookup is not a permutation of the plate")
+            if case["mode"] == "row" and any(a[0] != b[0] for a, b in lk.items()):
+                bad.append("row-mode: a well left its row")
+            if case["mode"] == "column" and any(a[1:] != b[1:] for a, b in lk.items()):
+                bad.append("column-mode: a well left its column")
+            if not obs["same_seed_same_lookup"]:
+                bad.append("seed: two constructions with one seed differ")
+            if not obs["reverse_ok"]:
+                bad.append("inverse: lookup_reverse is not the inverse of lookup")
+            return bad
         w = case["wells"]
         flat = [w["v"]] if w["shape"] == "scalar" else (list(w["v"]) if w["shape"] == "list" else [x for row in w["v"] for x in row])
         shape = [] if w["shape"] == "scalar" else ([len(w["v"])] if w["shape"] == "list" else [len(w["v"]), len(w["v"][0])])
@@ -1140,7 +1219,12 @@ class SaveSuite:
                 n = rng.choice([999, 1000, 1001, 1002, 1500, 2049, 4100])  # long worklists (abbreviated displays, buffer sizes)
             recs = [rng.choice(RECS[:-1]) for _ in range(n)]
             name = rng.choice(["out.gwl", "out.gwl", "OUT.GWL", "a b.Gwl", "out.gwl", "run 7.gwl", "µ.gwl", "a..gwl", "..gwl",
-                               "out.txt", "out", "gwl", "x.gwl.txt", "my.gwl.bak", ".gwl", "a.gwl.", "agwl"])
+                               "out.txt", "out", "gwl", "x.gwl.txt", "my.gwl.bak", ".gwl", "a.gwl.", "agwl",
+                               # the extension is that of the last path component
+                               "sub/out.gwl", "sub/.gwl", "sub.gwl/out", "sub.gwl/out.txt", "a/b/c.GWL", "./x.gwl", "sub.gwl/.gwl", "d.d/run.gwl"])
+            if i % 9 == 4 and n:
+                # a record with a line break inside (not a well-formed record: only the model/code tie is checked, see oracle)
+                recs[rng.randrange(len(recs))] = rng.choice(["C;two\nlines", "C;cr\rinside", "C;crlf\r\ninside", "\n", "C;end\n"])
             cases.append({"recs": recs, "name": name, "pre": rng.choice([None, "short", "long"]), "aspath": rng.random() < 0.5,
                           "via": rng.choice(["save", "save", "with", "with_exc", "twice", "with_save_other", "resave_foreign", "reenter_foreign"])})
         return cases
@@ -1155,6 +1239,7 @@ class SaveSuite:
         d = tempfile.mkdtemp(prefix="verif_save_", dir="/var/tmp")
         try:
             p = pathlib.Path(d) / case["name"]
+            p.parent.mkdir(parents=True, exist_ok=True)
             if case["pre"] == "short":
                 p.write_bytes(b"x")
             elif case["pre"] == "long":
@@ -1236,7 +1321,10 @@ class SaveSuite:
 
     def oracle_C17(self, case, obs):
         bad = []
-        base, dot, ext = case["name"].rpartition(".")
+        if any("\n" in r or "\r" in r for r in case["recs"]):
+            return []  # a record with a line break inside is not a record of the format; outside the property's domain
+        parts = [c for c in case["name"].split("/") if c not in ("", ".")]
+        base, dot, ext = (parts[-1] if parts else "").rpartition(".")
         name_ok = bool(dot) and base != "" and ext.lower() == "gwl"  # a leading dot starts a hidden file, not an extension
         pre = {None: None, "short": "x", "long": "OLD;" * 5000 + "\r\nTAIL"}[case["pre"]]
         if not name_ok:
